@@ -28,6 +28,7 @@ Select(rp, s, e) ==
       lo == s + a.startadd
       hi == e + a.endadd
   IN IF a.guard = "empty_if_start_gt_end" /\ lo > hi THEN <<>>
+     ELSE IF a.guard = "empty_if_start_ge_end" /\ lo >= hi THEN <<>>
      ELSE IF a.guard = "empty_if_equal" /\ s = e THEN <<>>
      ELSE IF a.endincl
           THEN LET r == RangeMeaning(rp.lang, lo, hi) IN [k \in 1..Len(r) |-> r[k] - a.origin]
